@@ -48,9 +48,10 @@ var propRules = map[string]*PropSpec{
 		Technique:  techMix,
 	},
 	"C02": {
-		Rules:       []string{"A2.32", "A3.32", "F3.32", "F8.bitmap", "F8.run", "F5", "F8.scratch", "A4", "F13.32", "U6", "RES1", "A2.stale", "A4.clear", "F8.point", "R3", "RCV1", "CACHE1", "U11"},
+		Rules:       []string{"A2.32", "A3.32", "F3.32", "F8.bitmap", "F8.run", "F5", "F8.scratch", "A4", "F13.32", "U6", "RES1", "A2.stale", "A4.clear", "F8.point", "R3", "RCV1", "CACHE1", "U11", "IX0"},
 		Explanation: explBase + " C02: every mutator obtains its container through the copy-before-write gate, stores only owned containers, drops emptied chunks, keeps flags aligned with moved containers, re-types/minimises results and inserts at a position searched in the same table.",
 		Decided: []string{
+			"exported functions read a fixed position of a caller's slice (the first value of AddMany, the first bitmap of an aggregate) only behind a test of its length",
 			"end-1 of a caller-supplied unsigned range end is computed only where the end is known to be positive (behind the empty-range exit, a zero test or a clamp)",
 			"where the container returned by an in-place kernel is kept, the old receiver is not consulted afterwards (cardinality/emptiness of a container that is no longer in the bitmap)",
 			"the container returned by an in-place kernel applied to a slot's container is stored back into the table (CheckedAdd/CheckedRemove/Add/Remove/AddRange ...)",
@@ -183,9 +184,10 @@ var propRules = map[string]*PropSpec{
 		Technique:  techErr + "; taint of decoded sizes",
 	},
 	"C11": {
-		Rules:       []string{"F9", "F2", "A1.api32", "A1.slices", "A2.32", "A3.32", "A6.kernel", "U1", "F8.scratch", "A2.64", "A3.64", "F2.repair", "U3", "PT2", "P6", "P2", "LP2", "LEN1", "IDX1", "F3.32", "RES1", "GAL1", "CACHE1", "SW1"},
+		Rules:       []string{"F9", "F2", "A1.api32", "A1.slices", "A2.32", "A3.32", "A6.kernel", "U1", "F8.scratch", "A2.64", "A3.64", "F2.repair", "U3", "PT2", "P6", "P2", "LP2", "LEN1", "IDX1", "F3.32", "RES1", "GAL1", "CACHE1", "SW1", "IX0"},
 		Explanation: explBase + " C11: singleton behaviour of the aggregate siblings, lazy->repair discipline, inputs and the caller's slice unchanged, scratch containers never end up in the result.",
 		Decided: []string{
+			"exported functions read a fixed position of a caller's slice (the first value of AddMany, the first bitmap of an aggregate) only behind a test of its length",
 			"at no call is an argument handed to another parameter than the one it is named after while that parameter exists with the same type (the start/last bounds of the per-range merge kernels, found-set/filter-set)",
 			"a merge loop that carries the element under its cursor in a local reloads it whenever the cursor moves (including galloping jumps)",
 			"the position answered by a galloping search is compared with a bound before it is used as an index (directly, or as the loop's position variable)",
@@ -258,9 +260,10 @@ var propRules = map[string]*PropSpec{
 		Technique:  techMix,
 	},
 	"C17": {
-		Rules:       []string{"A2.64", "A3.64", "F3.64", "F5", "F9", "A1.api64", "A5", "F12", "P6", "P2", "U1", "F10", "EQ1", "R2", "IDX1", "A2.stale", "LEN1", "F5.neg", "R3", "U5", "CUR1", "CUR2", "CUR3", "CUR4", "GAL1", "CACHE1", "CUR5", "SW1", "LOW1", "U11", "U12"},
+		Rules:       []string{"A2.64", "A3.64", "F3.64", "F5", "F9", "A1.api64", "A5", "F12", "P6", "P2", "U1", "F10", "EQ1", "R2", "IDX1", "A2.stale", "LEN1", "F5.neg", "R3", "U5", "CUR1", "CUR2", "CUR3", "CUR4", "GAL1", "CACHE1", "CUR5", "SW1", "LOW1", "U11", "U12", "IX0"},
 		Explanation: explBase + " C17: the 64-bit bitmap's bucket table obeys the same ownership discipline (bucket = container), drops emptied buckets, inserts at the right index and its aggregates return fresh bitmaps.",
 		Decided: []string{
+			"exported functions read a fixed position of a caller's slice (the first value of AddMany, the first bitmap of an aggregate) only behind a test of its length",
 			"in the 64-bit bitmap a 64-bit quantity is cut to 32 bits only if it is a widened / shifted / masked 32-bit value or an upper-bound comparison on it dominates the cut (Select's running index against the bucket cardinality)",
 			"end-1 of a caller-supplied unsigned range end is computed only where the end is known to be positive (behind the empty-range exit, a zero test or a clamp)",
 			"Rank asks a chunk (bucket) found by scanning positions about the low half of its argument only where the scan has established that the chunk's key equals the argument's high half",
